@@ -362,6 +362,9 @@ def ast_labels(ast, alts=()):
             labs.append(lab)
     if G.has_nested_noncomm(ast):
         labs.append("nested-non-commutative")
+    js = repr(ast)
+    if any(f"['call', '{inv}', ['call', '{fwd}'" in js for inv, (fwd, _, _) in G.OFF_BRANCH.items()):
+        labs.append("inverse(forward(x)) off the principal branch")
     alts = set(alts)
     if "parens" in alts:
         labs.append("shape:redundant-parentheses")
@@ -695,8 +698,20 @@ def tensor_cases(draw, profile=None, jit=False):
     route = draw(st.sampled_from(routes))
     prof = G.PROFILE_ARRAY if route.startswith("array") else (profile or G.PROFILE_FULL)
     asts = [draw(G.asts(vs, cs, profile=prof, max_depth=3, budget=10)) for _ in range(n)]
+    out = None
+    if route.startswith("array"):
+        # (after missed seed C11-6) entries that vanish identically - typical for Jacobians - and an output
+        # array supplied by the caller that holds other numbers
+        for i in range(n):
+            z = draw(st.sampled_from(["keep", "keep", "zero", "x-x"]))
+            if z == "zero":
+                asts[i] = ["num", 0.0]
+            elif z == "x-x" and vs:
+                asts[i] = ["sub", ["var", vs[0]["name"]], ["var", vs[0]["name"]]]
+        out = draw(st.sampled_from([None, "given", "given"]))
     sig = draw(signatures(vs, allow_none=False, allow_alias=not jit))
     return {
+        "out": out,
         "asts": asts, "tshape": shape, "vars": vs, "consts": cs, "sig": sig,
         "shape_seed": draw(st.integers(0, 2**31)),
         "args": {"seed": draw(st.integers(0, 2**31)), "n": draw(st.sampled_from([3, 2, 4, 1, 5])),
@@ -779,11 +794,18 @@ def check_tensor(case, backend="numpy", tolk=TOLK):
             f = numba_backend._make_expression_array(expr, single_arg=single)
             # documented: the output shape is the tensor shape plus the shape of the input arrays
             bargs = [np.array(a, dtype=float) for a in np.broadcast_arrays(*args)]
+            out = None
+            if case.get("out") == "given":
+                out = np.full(shape + tuple(full), 7.25)  # a buffer that was used before
             if single:
                 stacked = np.array(bargs, dtype=float)
-                got = run_generated(lambda: f(stacked), text, f"{backend}/{route}")
+                got = run_generated(lambda: f(stacked, out), text, f"{backend}/{route}")
             else:
-                got = run_generated(lambda: f(*bargs), text, f"{backend}/{route}")
+                got = run_generated(lambda: f(*bargs, out), text, f"{backend}/{route}")
+            if out is not None:
+                if got is not out and not np.shares_memory(got, out):
+                    raise Violation(f"{route}: `{text}` did not return the supplied output array", key=key + ":out")
+                got = out
         else:
             raise HarnessError(route)
         if backend == "numba" and route == "get_function":
@@ -799,6 +821,10 @@ def check_tensor(case, backend="numpy", tolk=TOLK):
             cmp_component(got[idx], idx, flat_i)
     labs = [f"route:{route}", f"tshape:{list(shape)}", f"layout:{case['args']['layout']}",
             f"sig:{case['sig']['mode']}", dev_label(worst)]
+    if route.startswith("array"):
+        labs.append("out:" + str(case.get("out")))
+        if any(a == ["num", 0.0] or (a[0] == "sub" and a[1] == a[2]) for a in case["asts"]):
+            labs.append("identically-zero-entry")
     for a in case["asts"][:2]:
         labs += [l for l in ast_labels(a, alts) if l.startswith(("fn:", "shape:"))]
     nt = judged > 0 and any(G.depth_of(a) >= 2 and any(k in G.NONCOMM for k in G.kinds_of(a))
@@ -1655,6 +1681,13 @@ SUBCHECKS = [
     SubCheck("tensor_expression", strategy=lambda: tensor_cases(G.PROFILE_NUMPY), check=check_tensor,
              mode="pure", budget={"quick": 160, "thorough": 5000}, shards={"quick": 1, "thorough": 2},
              rule="non-trivial = >= 2 components, one of depth >= 2 with a non-commutative operator"),
+    SubCheck("tensor_compiled_array_nojit",
+             strategy=lambda: tensor_cases(G.PROFILE_FULL, jit=True).filter(lambda c: c["route"].startswith("array")),
+             check=check_tensor_jit, mode="nojit", budget={"quick": 200, "thorough": 5000},
+             shards={"quick": 1, "thorough": 2},
+             rule="array function of a tensor expression (generated code executed with NUMBA_DISABLE_JIT=1), with and "
+                  "without a supplied output array; non-trivial = >= 2 components, one of depth >= 2 with a "
+                  "non-commutative operator"),
     SubCheck("tensor_expression_jit", strategy=lambda: tensor_cases(G.PROFILE_FULL, jit=True),
              check=check_tensor_jit, mode="jit", budget={"quick": 30, "thorough": 800},
              shards={"quick": 1, "thorough": 4},
